@@ -2,9 +2,9 @@
 (executor command CT) exactly as TLC assembled them; final bytes, running offset and the receiver's walk must agree."""
 from infra import *
 
-def cfg(ctrls, maxmsgs, lens, nbg):
-    t = "SPECIFICATION ASpec\nCONSTANTS\n  Buf = {1}\n  Ctrls = {%s}\n  MaxMsgs = %d\n  Lens = {%s}\n  NBg = %d\nCONSTRAINT Emit\nCHECK_DEADLOCK FALSE\n" % (
-        ", ".join('"%s"' % c for c in ctrls), maxmsgs, ", ".join(str(x) for x in lens), nbg)
+def cfg(ctrls, maxmsgs, lens, nbg, maxcloses=2):
+    t = "SPECIFICATION ASpec\nCONSTANTS\n  Buf = {1}\n  Ctrls = {%s}\n  MaxMsgs = %d\n  Lens = {%s}\n  NBg = %d\n  MaxCloses = %d\nCONSTRAINT Emit\nCHECK_DEADLOCK FALSE\n" % (
+        ", ".join('"%s"' % c for c in ctrls), maxmsgs, ", ".join(str(x) for x in lens), nbg, maxcloses)
     for i in ("ParseInvertsAssembly", "LengthExact", "Beyond", "HeaderKept"): t += "INVARIANT %s\n" % i
     return t
 
